@@ -13,13 +13,7 @@ theorem fkInt_str (first : Bool) (s : Str) :
     runV (cfgFkInt first) fkFromPython (.str s) = some (Codec.fkFromPython (.str s)) := by
   cases first <;> cases h : Codec.intText s <;> by_cases h2 : (∃ x, x ∈ s ∧ Codec.isDigit x = true) <;>
   pyxw [fkFromPython, fkFromPython_s0, fkFromPython_s1, fkFromPython_s2, fkFromPython_s3, fkFromPython_s4,
-    Codec.fkFromPython, h, h2]
-
-theorem fkFromPython_int_eq (first : Bool) (v : PyVal) :
-    runV (cfgFkInt first) fkFromPython v = some (Codec.fkFromPython v) := by
-  cases v with
-  | str s => exact fkInt_str first s
-  | _ => cases first <;> rfl
+    fkFromPython_s5, Codec.fkFromPython, clsIn, h, h2]
 
 theorem fkFromPython_str_eq (first : Bool) (v : PyVal) :
     runV (cfgFkStr first) fkFromPython v = some (Codec.fkStrFromPython v) := by
